@@ -62,9 +62,13 @@ def run_c14(chk):
              # year ends (ISO year != calendar year on some days), always with company holidays, work that has to skip them
              Knobs(p_tz=0.0, envelope="asap", p_gvac=1.0, p_leave=0.3, p_limits=0.2, big_effort=0.5, p_month=0.0, dur_weeks=[1, 2, 2],
                    max_res=2, starts=[1734912000, 1735516800, 1766361600, 1766966400, 1797811200, 1798416000, 1608508800,
-                                      1609113600, 1829865600, 1546214400, 1577664000])]
+                                      1609113600, 1829865600, 1546214400, 1577664000]),
+             # leap days: projects that begin in the week of (or before) 29 February, with absences and pinned dates, so that
+             # 29 February is written out in the text
+             Knobs(p_tz=0.0, envelope="asap", p_gvac=0.8, p_leave=0.8, p_pin=0.5, p_limits=0.2, p_month=0.0, dur_weeks=[1, 2],
+                   max_res=2, starts=[1708905600, 1708300800, 1835308800, 1834704000, 1961107200, 1582502400])]
     asts = [w for _, w in SC.witness_asts("C14")]
-    asts += [gen.gen_project(chk.rng, knobs[i % 3]) for i in range(n)]
+    asts += [gen.gen_project(chk.rng, knobs[i % 4]) for i in range(n)]
     # absences measured in months: a blocking booking of `+1m` is thirty days wherever it starts, so the premise holds; a
     # calendar-month reading would make the schedule depend on the month the project happens to begin in
     for i, p in enumerate(asts):
